@@ -28,6 +28,11 @@ type HTTPReq struct {
 	Header   http.Header
 	// what the daemon did with it
 	Handled string
+	// MaxGap is the longest time the daemon itself measured between two
+	// consecutive progress lines it wrote (or between the arrival of the
+	// request and the first line): what the scripted cadence really was on
+	// this machine.
+	MaxGap time.Duration
 }
 
 // HTTPReply scripts the daemon's behaviour for one request. The zero value
@@ -172,6 +177,14 @@ func (f *FakeIPFS) serve(w http.ResponseWriter, r *http.Request) {
 		}
 		f.mu.Unlock()
 	}
+	arrived := time.Now()
+	setGap := func(d time.Duration) {
+		f.mu.Lock()
+		if gen == f.gen && idx < len(f.reqs) && d > f.reqs[idx].MaxGap {
+			f.reqs[idx].MaxGap = d
+		}
+		f.mu.Unlock()
+	}
 	var rep *HTTPReply
 	if script != nil {
 		rep = script(&rec)
@@ -271,11 +284,15 @@ func (f *FakeIPFS) serve(w http.ResponseWriter, r *http.Request) {
 		w.WriteHeader(200)
 		steps, iv := rep.Steps, rep.Interval
 		if q.Get("progress") == "true" {
+			lastLine := arrived
 			for i := 1; i <= steps; i++ {
 				fmt.Fprintf(w, "{\"Progress\":%d}\n", i)
 				if flusher != nil {
 					flusher.Flush()
 				}
+				now := time.Now()
+				setGap(now.Sub(lastLine))
+				lastLine = now
 				select {
 				case <-r.Context().Done():
 					setHandled("pin/add aborted by client during progress")
